@@ -28,6 +28,8 @@ var leafSpecs = []leafSpec{
 		Ru("enum", `[1, 2]`), Ru("enum", `@e`), Ru("or", `["integer", "string"]`), Ru("or", `[{type: "integer", min: 0}, {type: "string"}]`), Ru("or", `[{type: "enum", enum: [1, "x"]}, {type: "boolean"}]`),
 		Ru("type", `"any"`), Ru("type", `"@a"`), Ru("type", `"mixed"`), Ru("type", `"enum"`)}},
 	{'l', `1.5`, []SRule{Ru("precision", "1"), Ru("precision", "2"), Ru("precision", two63), Ru("min", "0.5"), Ru("max", "1.50"), Ru("type", `"float"`), Ru("type", `"decimal"`), Ru("nullable", "true"), Ru("const", "true")}},
+	{'l', `0.123456`, []SRule{Ru("precision", "6"), Ru("precision", "7"), Ru("precision", "10"), Ru("precision", "16"), Ru("min", "0"), Ru("nullable", "true")}},
+	{'l', `-12.0000001`, []SRule{Ru("precision", "7"), Ru("precision", "9"), Ru("max", "0")}},
 	{'l', `"ab"`, []SRule{Ru("minLength", "0"), Ru("minLength", "2"), Ru("maxLength", "2"), Ru("maxLength", big19), Ru("maxLength", big20), Ru("maxLength", two63), Ru("maxLength", maxU64), Ru("regex", `"^a"`), Ru("regex", `"a\\.b|ab"`),
 		Ru("type", `"string"`), Ru("const", "true"), Ru("enum", `["ab", "c"]`), Ru("enum", `@e`), Ru("type", `"@b"`), Ru("or", `["@b", "integer"]`), Ru("or", `[{type: "string", maxLength: 3}, {type: "@a"}]`), Ru("nullable", "true")}},
 	{'l', `"a@b.cc"`, []SRule{Ru("type", `"email"`), Ru("nullable", "true"), Ru("minLength", "1")}},
